@@ -20,8 +20,10 @@ import (
 )
 
 type c02Caller struct {
-	Gate bool `json:"gate"`
-	Size int  `json:"size"`
+	Gate bool   `json:"gate"`
+	Size int    `json:"size"`
+	Kind string `json:"kind,omitempty"` // call (default) | noctx | retry : three client functions with their own descriptors, one server method
+	Junk int    `json:"junk,omitempty"` // bytes of ignored request payload
 }
 
 type c02Case struct {
@@ -60,7 +62,11 @@ func runC02(c c02Case) (*Violation, string) {
 		tok := rig.Tok(fmt.Sprintf("c%d", i))
 		go func() {
 			start.Wait()
-			calls[i] = rig.Go(cl, "call", tok, Plan{Gate: cc.Gate, Size: cc.Size})
+			kind := cc.Kind
+			if kind == "" {
+				kind = "call"
+			}
+			calls[i] = rig.Go(cl, kind, tok, Plan{Gate: cc.Gate, Size: cc.Size, Junk: padFor(tok, cc.Junk)})
 			launched.Done()
 		}()
 	}
@@ -121,6 +127,8 @@ func genC02(t *rapid.T) c02Case {
 	for i := 0; i < n; i++ {
 		cc := c02Caller{Gate: rapid.IntRange(0, 3).Draw(t, fmt.Sprintf("gate%d", i)) != 0}
 		cc.Size = rapid.SampledFrom([]int{0, 0, 10, 1000, 4000, 4096, 5000, 13000, 40000}).Draw(t, fmt.Sprintf("size%d", i))
+		cc.Kind = rapid.SampledFrom([]string{"call", "call", "noctx", "retry"}).Draw(t, fmt.Sprintf("kind%d", i))
+		cc.Junk = rapid.SampledFrom([]int{0, 0, 200, 5000, 30000}).Draw(t, fmt.Sprintf("junk%d", i))
 		c.Callers = append(c.Callers, cc)
 		if cc.Gate {
 			gated = append(gated, i)
@@ -168,6 +176,9 @@ func c02NT(c c02Case) (bool, []string) {
 		if cc.Size > 4096 {
 			cl = append(cl, "multi_frame_response")
 		}
+		if cc.Kind != "" && cc.Kind != "call" {
+			cl = append(cl, "several_client_functions")
+		}
 	}
 	if ungated {
 		cl = append(cl, "has_ungated")
@@ -195,7 +206,7 @@ func TestC02(t *testing.T) {
 	rec := NewRec("C02", c02Rule)
 	defer rec.Finish(t)
 	rec.EnableJournal()
-	rec.RequireClass("reordered", "strict", "with_delays", "multi_frame_response", "has_ungated", "tr_http")
+	rec.RequireClass("several_client_functions", "reordered", "strict", "with_delays", "multi_frame_response", "has_ungated", "tr_http")
 	sh, nsh := shard()
 
 	run := func(ft failer, c c02Case) {
@@ -219,7 +230,7 @@ func TestC02(t *testing.T) {
 				}
 				callers := make([]c02Caller, n)
 				for i := range callers {
-					callers[i] = c02Caller{Gate: true, Size: []int{0, 5000, 100}[i%3]}
+					callers[i] = c02Caller{Gate: true, Size: []int{0, 5000, 100}[i%3], Kind: []string{"call", "noctx", "retry"}[(i+k)%3], Junk: (i % 2) * 3000}
 				}
 				run(t, c02Case{Transport: "ws", Callers: callers, Perm: perm, Strict: k%2 == 0})
 				if thorough() {
